@@ -295,7 +295,7 @@ fn check(acc: &mut Acc, case: u64, sc: &Scenario, inj: &Injected, out: &Outcome,
 
 fn scripts_for(tier: Tier) -> Vec<(u64, u64)> {
     match tier {
-        Tier::Quick => vec![(1, 0), (5, 1), (6, 0), (11, 2), (0, 1), (10, 0), (3, 2), (8, 0)],
+        Tier::Quick => (0..NUM_SCRIPTS).map(|s| (s, s % 3)).chain([(1, 0), (5, 1), (6, 0), (11, 2), (6, 2), (13, 1)]).collect(),
         Tier::Thorough => (0..NUM_SCRIPTS).flat_map(|s| (0..3).map(move |v| (s, v))).collect(),
     }
 }
@@ -305,7 +305,7 @@ impl Property for C08 {
         "C08"
     }
     fn cases(&self, cfg: &Cfg) -> u64 {
-        scripts_for(cfg.tier).len() as u64 * KINDS * SHARDS + cfg.tier.pick(400, 100_000)
+        scripts_for(cfg.tier).len() as u64 * KINDS * SHARDS + cfg.tier.pick(1_500, 100_000)
     }
     fn run_case(&self, cfg: &Cfg, i: u64, acc: &mut Acc) {
         let scripts = scripts_for(cfg.tier);
